@@ -21,7 +21,7 @@ Definition ex_a : area R := mk_area 0 0 8 4 8%Z 4%Z.
 Example C18_ex_wf : wf_area ex_a /\ fits_int32 ex_a /\ north_up ex_a /\ valid_cell ex_a 1 0.
 Proof. unfold wf_area, fits_int32, north_up, valid_cell; cbn. repeat split; try lia; lra. Qed.
 Example C18_ex_interior : in_cell_open ex_a 1 0 (/ 2) (5 / 2).
-Proof. unfold in_cell_open, sbetween, cell_x, cell_y, dxR, dyR; cbn. split; left; lra. Qed.
+Proof. unfold in_cell_open, sbetween, cell_x, cell_y, dxR, dyR; cbn. split; [left | right]; lra. Qed.
 Example C18_ex_outside : ~ in_extent ex_a (- / 2) (5 / 2) /\ ~ in_extent_widened ex_a (eps_mi RO) (- / 2) (5 / 2).
 Proof.
   pose proof eps_bounds. split; intros [[H1 | H1] _]; revert H1; unfold cell_x, dxR; cbn; lra.
